@@ -319,6 +319,7 @@ locals {
 
 resource "aws_s3_bucket" "ünï" {
   bucket = "b-${local.日本語}"
+  acl    = "pübliç-réad" # ✓ öffentlich zugänglich
   tags = {
     "ключ" = upper("значение")
     naïve  = local.combine
